@@ -50,6 +50,21 @@ CHECKS = {
     text='TLC checks the report relation (consistent => empty; altered reachable cell named with stored and recomputed value; only dependants reported; unevaluable cells under exceptions) on every behaviour of the implementation-shaped work-list model and exports the final report; the same cases are run on real .xlsx files (openpyxl + patched <v> elements, broken cells through an unknown function or a raising plugin) and the returned dict must satisfy the relation; the model report is compared too (drift).',
     note='1<->TRUE family excluded; tolerance None or 2; workbooks are the 5-8 node engine shapes',
     ref='§3 C12'),
+ 'C13': dict(
+    technique='Arrays.tla: shape-growing machine over operand/operand/target shapes with Broadcast/Lift/Fit/Member definitions, model-checked by TLC; every defined state realised as ArrayFormula workbooks and executed',
+    text='TLC enumerates all 16^3 operand x operand x target shape triples (and 1-3 argument function forms), checking ShapeExact, Pointwise, Trimmed, Repeated, Uncovered, MemberOwn and growth-stability laws on the definitions; each state becomes real workbooks with array formulas (12 operators, 20 array-aware functions, composites; range refs, array constants, scalars) and evaluate(target) plus evaluate(member) are compared with the scalar application at the exported source positions.',
+    note='non-broadcastable shapes, blank elements and empty-string results are left unconstrained; quick tier samples the operator/function templates',
+    ref='§3 C13'),
+ 'C14': dict(
+    technique='Aggregates.tla: cell sequences built by Append with fold definitions, laws as TLC invariants/action properties; states realised as real ranges and evaluated through formulas, with permuted/reshaped/partitioned twins',
+    text='TLC checks FoldStep/SumStep, permutation and reshape invariance, partition additivity, AVERAGE=SUM/COUNT, MIN/MAX of nothing = 0, first-error selection, SUBTOTAL and SUMPRODUCT laws exhaustively for sequences up to length 4 over 10 values (simulated to 25 cells); each state is a real range evaluated with SUM/AVERAGE/MIN/MAX/COUNT/SUBTOTAL/SUMPRODUCT.',
+    note='COUNT over error cells and the choice among several different errors are unconstrained; known finding D44 (SUMPRODUCT over a 1x1 blank range) is attributed by an exact predictor',
+    ref='§3 C14'),
+ 'C15': dict(
+    technique='Criteria.tla: criteria grammar and Matches relation (set of allowed booleans), selection laws as TLC invariants; states realised as workbooks, selected positions recovered through power-of-two weights',
+    text='TLC checks Total, OneCriterion, Commute, Narrowing, Partition, TextVsNumber, Trichotomy, CaseInsensitive, StarLaw and AverageLaw over ranges x 1..3 criteria from the grammar; each state is executed through COUNTIF(S)/SUMIF(S)/AVERAGEIF(S)/MAXIFS/MINIFS formulas and the observed selection must be allowed; the relational laws are also checked between observed values.',
+    note='logical cells vs numeric criteria, numeric-looking text vs numeric criteria, empty text vs ""/"="/"<>", error cells in criteria ranges are unconstrained (any answer, no exception)',
+    ref='§3 C15'),
  'C17': dict(
     technique='Calendar.tla: day-successor machine with Excel month lengths plus DATE/EOMONTH/EDATE/clock/YEARFRAC enumerators, model-checked by TLC against independent closed forms; exported month starts / argument vectors executed on the date_time functions',
     text='TLC walks the 1900 calendar (every serial day in the thorough tier, 2,958,466 states) checking SerialClosedForm, RoundTrip, Fictitious days, ProlepticAfter60, weekday period 7, LastDay, carrying laws of DATE, month-end laws of EOMONTH/EDATE, clock decomposition and YEARFRAC symmetry; the harness expands TLC\'s month starts to days and calls YEAR/MONTH/DAY/WEEKDAY/DATE/EOMONTH/EDATE/HOUR/MINUTE/SECOND/YEARFRAC through wrappers and formulas.',
